@@ -48,6 +48,9 @@ type c10state struct {
 	releases int
 	refused  map[string]int
 	unlocked bool // the liquidity administrator unlocked all stake entries
+	// sporkSpent: the spork key moved (Fund) or burnt (BurnZnn) this token out of the liquidity contract in this history
+	sporkSpent map[types.ZenonTokenStandard]bool
+	waived     map[types.ZenonTokenStandard]bool // known finding hit: that token's liquidity backing is broken for good in this case
 }
 
 func (s *c10state) ackMomentum(r *nom.AccountBlock) *nom.Momentum {
@@ -341,6 +344,14 @@ func (s *c10state) process(ct types.Address, r, snd *nom.AccountBlock, merr erro
 			to, amt, tok = e.owner, e.amount, e.token
 		}
 		release(e, "liquidity stake "+id.String()[:8], to, tok, amt, okT, why)
+	case "liquidity.Fund", "liquidity.BurnZnn":
+		if merr == nil && snd.Address == s.h.W.Keys.Spork.Address {
+			for _, d := range r.DescendantBlocks {
+				if d.Amount != nil && d.Amount.Sign() > 0 {
+					s.sporkSpent[d.TokenStandard] = true
+				}
+			}
+		}
 	case "liquidity.UnlockLiquidityStakeEntries":
 		if merr == nil {
 			s.unlocked = true
@@ -504,7 +515,8 @@ func TestC10(t *testing.T) {
 				h.Intents = append(h.Intents, in, in)
 			}
 		}
-		s := &c10state{c: c, h: h, ents: map[string]*c10ent{}, deposits: map[string]*big.Int{}, seen: map[types.Hash]bool{}, refused: map[string]int{}}
+		s := &c10state{c: c, h: h, ents: map[string]*c10ent{}, deposits: map[string]*big.Int{}, seen: map[types.Hash]bool{}, refused: map[string]int{},
+			sporkSpent: map[types.ZenonTokenStandard]bool{}, waived: map[types.ZenonTokenStandard]bool{}}
 		// genesis entitlements
 		for _, f := range spec.Fusions {
 			s.ents["fusion/"+f.Owner.String()+"/"+f.Id.String()] = &c10ent{kind: "fusion", id: f.Id, owner: f.Owner, token: types.QsrTokenStandard,
@@ -558,6 +570,16 @@ func TestC10(t *testing.T) {
 			for ct, m := range liab {
 				for z, owed := range m {
 					bal := h.Balance(ct, z)
+					if bal.Cmp(owed) < 0 && ct == types.LiquidityContract && s.sporkSpent[z] {
+						// known finding: the administrator listed ZNN / QSR (the contract's reward pool tokens) as stakeable and the
+						// spork key's Fund / BurnZnn spent the pool including the stakes; tolerated for exactly this history shape
+						if s.waived[z] || c.Failf("C10/not-backed/liquidity/reward-token-staked-then-spent-by-spork-key",
+							"at momentum %d (+pool) the liquidity contract owes %v of %v to its stakers but holds %v after the spork key's Fund / BurnZnn", h.A.Height(), owed, z, bal) {
+							s.waived[z] = true
+							c.Class("known:liquidity-stake-in-reward-token-spent-by-spork-key")
+							continue
+						}
+					}
 					if bal.Cmp(owed) < 0 {
 						c.Failf("C10/not-backed/"+sim.ContractNames[ct], "at momentum %d (+pool) the %s contract owes %v of %v but holds %v", h.A.Height(), sim.ContractNames[ct], owed, z, bal)
 					}
